@@ -337,11 +337,33 @@ func c01Handler(p *Prog, c *Check) {
 				okF = false
 				if ek.K == TRes && ek.Idx == 0 && ek.Sub[0].K == TCall && ek.Sub[0].Callee != nil && inModule(ek.Sub[0].Callee) {
 					pos := [3]int{-1, -1, -1}
+					// the eon: the message's, possibly through the checked conversion; the DKG result: decoded
+					// from the row looked up for that eon, possibly handed back by a helper
+					eonPats := []string{"$m.Eon", "Uint64ToInt64Safe($m.Eon)#0"}
+					isEon := func(t *Term) bool {
+						for _, ep := range eonPats {
+							if matchUp(t, ep) {
+								return true
+							}
+						}
+						return false
+					}
+					isPDR := func(t *Term) bool {
+						for _, ep := range eonPats {
+							if matchUp(t, strings.Replace(pdr, "$m.Eon", ep, 1)) {
+								return true
+							}
+						}
+						return false
+					}
+					resolveFacts = sfi.FactsAt(mo.Calls[0])
+					defer func() { resolveFacts = nil }()
 					for ai, at := range ek.Sub[0].Sub {
+						_, viaHelper := p.resolvesTo(sfi, at, isPDR)
 						switch {
-						case matchUp(at, "$m.Eon"):
+						case isEon(at):
 							pos[0] = ai
-						case matchUp(at, pdr):
+						case isPDR(at) || viaHelper:
 							pos[1] = ai
 						case ParsePat("$m.Shares[$i].IdentityPreimage").Match(at, copyBinds(b)):
 							pos[2] = ai
@@ -364,11 +386,18 @@ func c01Handler(p *Prog, c *Check) {
 				okAllSites = false
 				continue
 			}
+			// the DKG row is looked up for the message's eon (directly or through the checked conversion)
+			eonArg := "$m.Eon"
+			for _, alt := range []string{"$m.Eon", "Uint64ToInt64Safe($m.Eon)#0"} {
+				if okA, _, _, _ := p.guardLift(mo.Calls[0], copyBinds(b), []string{"GetDKGResultForKeyperConfigIndex(_, _, " + alt + ")#1 == nil"}, 0); okA {
+					eonArg = alt
+				}
+			}
 			okG := c.Guard(p, rule, key+":guard", mo.Calls[0], "append(keys, &Key{...})", copyBinds(b),
 				"ok($ek.SecretKeys[Hex($m.Shares[$i].IdentityPreimage)]) == true",
 				"$aggcall#1 == nil",
-				"GetDKGResultForKeyperConfigIndex(_, _, $m.Eon)#0.Success == true",
-				"GetDKGResultForKeyperConfigIndex(_, _, $m.Eon)#1 == nil",
+				"GetDKGResultForKeyperConfigIndex(_, _, "+eonArg+")#0.Success == true",
+				"GetDKGResultForKeyperConfigIndex(_, _, "+eonArg+")#1 == nil",
 			)
 			if !okG {
 				okAllSites = false
